@@ -525,6 +525,11 @@ def explain_failure(case, res, model):
                 out[name] = dict(clause=cl, first_differences=d[:6])
         if not res["clone_distinct"]:
             out["clone"] = "explainer.model is the user's model object"
+        if case["stream"] == "slope":
+            d = _diffs(model[2], res["clone_out"])
+            if d:
+                out["clone forward vs user's model forward"] = dict(
+                    clause="forward outputs unchanged for every ReLU variant (negative_slope != 0 here)", first_differences=d[:6])
     else:
         for name, m, i, cl, tol in [("explain", model[0], res["maps"], "relu(sum_k w_k A_k) with the documented weights, bicubic resize", 1e-4),
                                     ("F-net forward (harness extraction)", model[1], res["user_out"], "extraction", 0.0),
